@@ -3,7 +3,7 @@ from props.common import *
 
 # characters chosen so that every pair of pipeline steps interacts
 USER_ALPHA = [0x61, 0x41, 0xFF21, 0xFF76, 0xC5, 0x212B, 0x2126, 0x130, 0x301, 0x5D0, 0x627, 0x5B0, 0x661, 0x31,
-              0x200D, 0x94D, 0xB7, 0x6C, 0x20, 0x13A0, 0x1F88, 0x65E5, 0x20000, 0x1E9B, 0x323]
+              0x200D, 0x94D, 0xB7, 0x6C, 0x20, 0x13A0, 0x1F88, 0x65E5, 0x20000, 0x1E9B, 0x323, 0x3000, 0x3A3]
 FREE_ALPHA = [0x61, 0x41, 0x20, 0xA0, 0x3000, 0xC5, 0x212B, 0x301, 0xA8, 0xFDFA, 0x2163, 0xFF21, 0xB5, 0x1F88,
               0x65E5, 0x20000, 0xAD, 0x378, 0x200D, 0x94D, 0x1100, 0x1161, 0x2460]
 
